@@ -4,7 +4,7 @@ from lib import E, guarded
 
 RULE = ("correspondence: all 256 table entries, all 256 byte reversals (exhaustive), per-byte register "
         "update from boundary + random (register, byte) pairs, calculate_for on byte strings of length "
-        "0..4096 in both byte orders; search: implementation vs the extracted X-25 reference and the "
+        "0..4096 in both byte orders, plus messages crafted so that the running register passes through 0x0000, 0xFFFF and other boundary values after k bytes (every k <= 160 and block-size multiples up to 4094); search: implementation vs the extracted X-25 reference and the "
         "residue 0xF0B8.  non-trivial = distinct inputs that produced a value")
 ASSUMPTIONS = ["the 2^24 (register, byte) update space is covered in the proof by 2^16 sweeps + one algebraic "
                "lemma, and on the Python side by sampling (thorough: 2 000 000 pairs)"]
@@ -39,6 +39,50 @@ def messages(ctx):
     return msgs
 
 
+# ---- input generation helper (not an oracle): drive the CRC register through chosen values
+_T = []
+for _i in range(256):
+    _c = _i
+    for _ in range(8):
+        _c = (_c >> 1) ^ 0x8408 if _c & 1 else _c >> 1
+    _T.append(_c)
+_HI = {t >> 8: i for i, t in enumerate(_T)}
+
+
+def _reg(msg, reg=0xFFFF):
+    for b in msg:
+        reg = (reg >> 8) ^ _T[(reg ^ b) & 0xFF]
+    return reg
+
+
+def force_register(prefix, target):
+    """two bytes that bring the (reflected) X-25 register to `target` after `prefix`"""
+    reg = _reg(prefix)
+    idx = _HI[target >> 8]
+    for b1 in range(256):
+        r1 = (reg >> 8) ^ _T[(reg ^ b1) & 0xFF]
+        if (_T[idx] ^ (r1 >> 8)) & 0xFF == target & 0xFF:
+            return bytes([b1, idx ^ (r1 & 0xFF)])
+    raise AssertionError("no forcing bytes")
+
+
+def crafted_messages(ctx):
+    """messages whose running register equals a boundary value (0, 0xFFFF, 1, 0x8000, 0x00FF, 0xFF00) after k
+    bytes, for every k up to 160 and for block-size multiples up to 4096, followed by a short tail"""
+    r = lib.rng("C12-craft")
+    ks = list(range(2, 161)) + [192, 255, 256, 257, 320, 384, 448, 512, 640, 768, 1024, 1536, 2048, 3072, 4094]
+    out = []
+    for k in ks:
+        for target in ((0x0000, 0xFFFF) if k > 160 or k % 8 else (0x0000, 0xFFFF, 0x0001, 0x8000, 0x00FF, 0xFF00)):
+            prefix = bytes(r.getrandbits(8) for _ in range(k - 2))
+            m = prefix + force_register(prefix, target)
+            assert _reg(m) == target
+            out.append(m + bytes(r.getrandbits(8) for _ in range(r.choice([1, 2, 5]))))
+            if ctx.thorough:
+                out.append(m)
+    return out
+
+
 def check_msg(ctx, msg, spec_fcs, spec_res):
     from dlms_cosem import crc
     from dlms_cosem.hdlc import frames
@@ -70,7 +114,7 @@ def run(ctx):
     pairs += [(r.getrandbits(16), bytes([r.getrandbits(8)])) for _ in range(n)]
     for k in range(0, len(pairs), 200000):
         ctx.corr([("crc_calculate_from", list(p)) for p in pairs[k:k + 200000]], impl, "bytestep")
-    msgs = messages(ctx)
+    msgs = messages(ctx) + crafted_messages(ctx)
     ctx.corr([("crc_calculate_for", [m, lf]) for m in msgs for lf in (False, True)], impl, "calculate_for")
     # --- search against the reference
     spec = lib.run_model([("spec_x25_fcs", m) for m in msgs])
